@@ -34,9 +34,13 @@ const modPath = "github.com/quickfixgo/quickfix"
 // Files of package quickfix whose locks/selects are instrumented. The codec files are excluded:
 // their per-message locks are hot and never shared between tasks.
 var lockSkip = map[string]bool{
-	"field_map.go": true, "message.go": true, "repeating_group.go": true,
+	"message.go": true, "repeating_group.go": true,
 	"message_router.go": true, "tls.go": true,
 }
+
+// Files whose mutexes are pointers (passed as they are, not by address). field_map.go's per-message
+// locks are scheduling points only for a scheduler with CodecLocks (simsync.forSite).
+var ptrLocks = map[string]bool{"field_map.go": true}
 
 func main() {
 	repo := flag.String("repo", "/repo", "repository root")
@@ -304,9 +308,13 @@ func lockCall(e ast.Expr) (recv ast.Expr, method string, ok bool) {
 func (r *rewriter) mkCall(recv ast.Expr, method string) *ast.CallExpr {
 	r.needSync = true
 	r.changed = true
+	var mu ast.Expr = &ast.UnaryExpr{Op: token.AND, X: recv}
+	if ptrLocks[r.base] {
+		mu = recv
+	}
 	return &ast.CallExpr{
 		Fun:  &ast.SelectorExpr{X: ast.NewIdent("simsync"), Sel: ast.NewIdent(method)},
-		Args: []ast.Expr{&ast.UnaryExpr{Op: token.AND, X: recv}, &ast.BasicLit{Kind: token.STRING, Value: strconv.Quote(r.site())}},
+		Args: []ast.Expr{mu, &ast.BasicLit{Kind: token.STRING, Value: strconv.Quote(r.site())}},
 	}
 }
 
